@@ -99,7 +99,14 @@ struct SessionsModel : Monitor {
 		if (!dns_parse_strict(d.data, m).empty() || m.qr || m.qd.empty()) return;
 		if (!decode_upquery(m.qd[0].name.dotted(), w->domain, u)) return;
 		step.parsed = true; step.cmd = u.cmd; step.uid = u.userid;
-		if (u.cmd == 'v' || u.cmd == 'z' || u.cmd == 'y') { step.open_cmd = true; return; }
+		if (u.cmd == 'v') {
+			// a version request of THIS protocol version may allocate a slot; any other one is answered VNAK (or not at all) and
+			// must leave every session alone - it is judged like an unauthorised request
+			bool right = u.b32.size() >= 4 && u.b32[0] == 0 && u.b32[1] == 0 && u.b32[2] == 5 && u.b32[3] == 2;
+			if (right) step.open_cmd = true; else w->probes["c03.other_version_requests"]++;
+			return;
+		}
+		if (u.cmd == 'z' || u.cmd == 'y') { step.open_cmd = true; return; }
 		auto it = slot.find(u.userid);
 		if (it == slot.end() || !it->second.issued) return;
 		SlotModel &s = it->second;
